@@ -289,13 +289,22 @@ pub fn run_auth(args: &Args) -> (u64, u64) {
             })));
         }
         clients.sort_by_key(|c| c.0);
+        // in every third round each server step runs on a FRESH thread (typestates are Send: an object built on one
+        // thread is completed on another)
+        let migrate = round % 3 == 2;
         let order = [[1usize, 2, 0], [2, 0, 1], [0, 2, 1]][round % 3];
         let mut servers: Vec<Option<(u64, wow_srp::server::SrpServer, [u8; 20])>> = vec![None, None, None];
         let mut proofs: Vec<Option<_>> = proofs.into_iter().collect();
         for i in order {
             if let (Some((po, p)), Some((_, c))) = (proofs[i].take(), clients[i].1.as_ref()) {
                 if let Some(apub) = h.pubkey(*c.client_public_key()) {
-                    servers[i] = h.into_server(po, p, apub, *c.client_proof());
+                    let m1 = *c.client_proof();
+                    servers[i] = if migrate {
+                        let hr = &mut h;
+                        std::thread::scope(|sc| sc.spawn(move || hr.into_server(po, p, apub, m1)).join().ok().flatten())
+                    } else {
+                        h.into_server(po, p, apub, m1)
+                    };
                 }
             }
         }
@@ -308,9 +317,14 @@ pub fn run_auth(args: &Args) -> (u64, u64) {
                 }
             }
         }
-        for _ in 0..2 {
+        for k in 0..2 {
             for s in sessions.iter_mut() {
-                good_reconnect(&mut h, s);
+                if migrate && k == 1 {
+                    let hr = &mut h;
+                    std::thread::scope(|sc| { let _ = sc.spawn(move || good_reconnect(hr, s)).join(); });
+                } else {
+                    good_reconnect(&mut h, s);
+                }
             }
         }
         h.honest = false;
@@ -918,7 +932,7 @@ pub fn run_clientgroups(args: &Args) -> (u64, u64) {
     let scen = read_ndjson(args.scen.as_ref().expect("--scen cases"));
     let mut cnt = 0u64;
     for c in scen.iter() {
-        if cnt % 2000 == 0 {
+        if cnt % 100 == 0 {
             h.reset("clientgroups");
         }
         cnt += 1;
